@@ -232,17 +232,18 @@ Theorem refuted :
   /\ (denotes_listener {| mode_transport := TCP; listen_addrs := [(s_127_0_0_1, 8080)] |} (s_127_0_0_1, 8080) s_wild4 8080 TCP
       /\ server_connect [{| mode_transport := TCP; listen_addrs := [(s_127_0_0_1, 8080)] |}] s_wild4 8080 TCP = None).
 Proof.
-  repeat split; try (vm_compute; reflexivity); try apply denotes_all.
-  - apply LD_v4. vm_compute. reflexivity.
-  - apply LD_name. vm_compute. reflexivity.
-  - apply LD_name. vm_compute. reflexivity.
-  - apply LD_wild. right. left. reflexivity.
-  - apply LD_mapped. vm_compute. reflexivity.
-  - apply LD_v6. right. left. reflexivity.
-  - left. reflexivity.
-  - right. split.
-    + left. exists 2130706433. split; [vm_compute; reflexivity|]. symmetry. exact dotted_127_0_0_1.
-    + apply LD_wild. left. reflexivity.
+  assert (cex : forall ch, local_dest ch -> server_connect [srv_all] ch 8080 TCP = None -> counterexample ch).
+  { intros ch H1 H2. split; [apply denotes_all; exact H1|exact H2]. }
+  split; [apply cex; [apply LD_v4|]; vm_compute; reflexivity|].
+  split; [apply cex; [apply LD_name|]; vm_compute; reflexivity|].
+  split; [apply cex; [apply LD_name|]; vm_compute; reflexivity|].
+  split; [apply cex; [apply LD_wild; right; left; reflexivity|vm_compute; reflexivity]|].
+  split; [apply cex; [apply LD_mapped|]; vm_compute; reflexivity|].
+  split; [apply cex; [apply LD_v6; right; left; reflexivity|vm_compute; reflexivity]|].
+  split; [|vm_compute; reflexivity].
+  split; [reflexivity|]. split; [left; reflexivity|]. right. split.
+  - left. exists 2130706433. split; [vm_compute; reflexivity|]. symmetry. exact dotted_127_0_0_1.
+  - apply LD_wild. left. reflexivity.
 Qed.
 
 (* non-vacuity: the hypotheses of [partial] are satisfiable with a non-trivial configuration, also for
@@ -258,8 +259,11 @@ Theorem nonvacuous :
   /\ server_connect [srv_all; srv_dns] (b "example.com") 8080 TCP = None
   /\ server_connect [srv_all; srv_dns] s_v6_loop 8080 TCP = Some error_message.
 Proof.
-  split; [|repeat split; try (vm_compute; reflexivity); left; reflexivity].
-  split; [reflexivity|]. split; [right; reflexivity|]. right. split.
-  - right. right. right. reflexivity.
-  - apply LD_name. vm_compute. reflexivity.
+  split.
+  { split; [reflexivity|]. split; [right; reflexivity|]. right. split.
+    - right. right. right. reflexivity.
+    - apply LD_name. vm_compute. reflexivity. }
+  split; [left; reflexivity|].
+  split; [vm_compute; reflexivity|]. split; [vm_compute; reflexivity|].
+  split; vm_compute; reflexivity.
 Qed.
